@@ -50,7 +50,9 @@ func (m *Machine) freshName(name string) string {
 
 // freshVar creates an auxiliary variable that is not a harness input.
 func (m *Machine) freshVar(name string, w int) *Term {
-	return Var("aux!"+m.freshName("aux!"+name), w)
+	v := Var("aux!"+m.freshName("aux!"+name), w)
+	m.auxVars = append(m.auxVars, v)
+	return v
 }
 
 func (m *Machine) input(name, kind string, w int) *Term {
